@@ -174,7 +174,7 @@ func TestC24_FreeStorageGrants(t *testing.T) {
 	grants := 0
 	caseReset["C24"] = func() { grants = 0 }
 	ops := []string{"addAssigner", "addAssigner", "freeAlloc", "freeAlloc", "freeAlloc", "freeAlloc", "freeAlloc", "freeAlloc", "freeAlloc", "freeAlloc",
-		"newAlloc", "upload", "cancel", "finalize", "advance", "kill", "writeLock", "readRedeem2"}
+		"newAlloc2", "upload", "cancel", "finalize", "advance", "kill", "writeLock", "readRedeem2"}
 	runMachineOps(t, "C24", ops, "generated storage histories biased to free storage: the contract owner (or a stranger) registers and re-registers two assigners with generated individual / total limits and key rotation; free_allocation_request markers with tokens 1e-10 .. 150, nonces fresh / replayed after success / replayed after refusal, signed by the registered key / the key registered before a rotation / another assigner / a stranger, submitted by the recipient or by somebody else, with the full or a shortened blobber list, across both assigners, interleaved with ordinary allocation operations; oracle (model: redeemed nonces and granted total per assigner, limits read from the state before the transaction): an accepted request needs a registered assigner, a signature of its currently registered key over the marker as sent, sender == recipient, a nonce never granted before, tokens <= individual limit and total after <= total limit; it debits the contract owner's wallet by exactly the marker's tokens, creates an allocation owned by the recipient, and records nonce and total; a refused request leaves the assigner record and every balance untouched; non-trivial = history in which some assigner saw >= 2 grants and >= 1 refusal; distinct by history", 40, 90,
 		func(m *machine, txn *transaction.Transaction, o sim.Outcome, before *snapshot) error {
 			fa := m.lastFree
